@@ -47,6 +47,7 @@ class LoopCut:
     havoc_locals = names of locals to havoc, havoc_regions = SymRegions to havoc"""
 
     def __init__(self, inv, variant=None, havoc_locals=(), havoc_regions=(), hints=None, cases=None):
+        self.lemmas = None           # lemmas(I, head, k) -> [(label, QF formula)]: proved (obligation) then assumed for the skolemised goals
         self.instance_terms = None   # instance_terms(I, head, k) -> extra terms at which the head invariant is instantiated
         self.snapshot = None    # snapshot(I) -> any: state at the loop head handed to cases()
         self.cases = cases      # cases(I, head_state) -> [(label, predicate(k))]: case split applied to every quantified conjunct
@@ -339,12 +340,17 @@ class GInterp(Interp):
                 pass
             if inc.get("kind"):
                 self.rval(inc)
+            kc0 = z3.BitVec("k!sk", OW)
+            if cut.lemmas:
+                for ll, lg in cut.lemmas(self, head, kc0):
+                    E.oblige("%s/lemma#%s" % (lid, ll), lg, kind="lemma", qf=True)
+                    E.assume(lg)
             for label, g in cut.inv(self):
                 if z3.is_quantifier(g) and g.is_forall() and g.num_vars() == 1:
                     # skolemise the goal (validity = for all values of the fresh constant) and split it into cases
                     kc = z3.BitVec("k!sk", g.var_sort(0).size())
                     inst = z3.substitute_vars(g.body(), kc)
-                    cs = cut.cases(self, head) if cut.cases else [("all", lambda k: z3.BoolVal(True))]
+                    cs = cut.cases(self, head, label) if cut.cases else [("all", lambda k: z3.BoolVal(True))]
                     # instances of the (assumed) head invariant at the skolem constant and at the contract's extra terms:
                     # consequences of hypotheses already in the path condition, used for the quantifier-free first attempt
                     terms = [kc] + (cut.instance_terms(self, head, kc) if cut.instance_terms else [])
@@ -355,7 +361,7 @@ class GInterp(Interp):
                                 insts.append(z3.substitute_vars(hg.body(), tm))
                     for cl, pred in cs:
                         E.oblige("%s/inv-preserve#%s/%s" % (lid, label, cl), z3.Implies(pred(kc), inst), kind="inv-preserve",
-                                 pruned_extra=insts)
+                                 pruned_extra=insts, timeout_s=900.0)
                 else:
                     E.oblige("%s/inv-preserve#%s" % (lid, label), g, kind="inv-preserve", qf=not EN._has_quant(g))
             if v0 is not None:
